@@ -21,7 +21,7 @@ from gemato.openpgp import IsolatedGPGEnvironment
 
 PROPERTY = 'C04'
 LEVEL = 'exploration'
-RULE = ('(sequences) every sequence of length 0..6 (quick) / 0..7 '
+RULE = ('(sequences) every sequence of length 0..5 (quick) / 0..7 '
         '(thorough) over the line classes S signed-message header, G '
         'signature header, N signature end, O other armor line, B blank, H '
         'armor-header/base64 text, E valid entry, D dash-escaped entry, A '
@@ -54,7 +54,7 @@ ASSUMPTIONS = [
 S = '-----BEGIN PGP SIGNED MESSAGE-----'
 G = '-----BEGIN PGP SIGNATURE-----'
 N = '-----END PGP SIGNATURE-----'
-CLASSES = 'SGNOBHEDAJ'
+CLASSES = 'SGNOBHEDAJX'
 
 
 def line_for(cls, i):
@@ -76,19 +76,22 @@ def line_for(cls, i):
         return f'- DATA d{i} {i}'
     if cls == 'A':
         return '- ' + S
+    if cls == 'X':
+        # doubly dash-escaped: the cleartext line is "- DATA ...", junk
+        return f'- - DATA x{i} {i}'
     return 'garbage line here'
 
 
 PLAIN_RE = re.compile(r'^[BE]*$')
 SIGNED_RE = re.compile(
-    r'^(?P<pre>B*)S(?P<hdr>[HJEDA]*)B(?P<body>[BED]*)G(?P<sig>[HJEDAB]*)N'
+    r'^(?P<pre>B*)S(?P<hdr>[HJEDAX]*)B(?P<body>[BED]*)G(?P<sig>[HJEDABX]*)N'
     r'(?P<post>B*)$')
 SIGNED_STRICT_RE = re.compile(r'^B*SH+B[BED]*G[HB]*NB*$')
 # pins for the rejection class
 ENTRY_BEFORE_SIGNED_RE = re.compile(
     r'^[BE]*E[BE]*SH+B[BED]*G[HB]*NB*$')
 TRAILING_DATA_RE = re.compile(
-    r'^B*SH+B[BED]*G[HB]*NB*(?P<tail>[EDJHA][BEDJHA]*)$')
+    r'^B*SH+B[BED]*G[HB]*NB*(?P<tail>[EDJHAX][BEDJHAX]*)$')
 TRUNCATED_RE = re.compile(r'^B*S(H+(B([BED]*(G[HB]*)?)?)?)?$')
 MISPLACED_RE = re.compile(r'^[BE]*[GNO][BE]*$')
 
@@ -124,7 +127,7 @@ def expected_for(seq):
 
 
 def enum_sequences(tier, shard, nshards):
-    maxlen = 6 if tier == 'quick' else 7
+    maxlen = 5 if tier == 'quick' else 7
     i = 0
     for n in range(0, maxlen + 1):
         for seq in itertools.product(CLASSES, repeat=n):
@@ -164,11 +167,17 @@ def run_sequence(desc):
                 # safety invariants, independent of the reference
                 got = []
                 for e in m.entries:
-                    if e.tag != 'DATA' or e.path[0] not in 'ed':
+                    if e.tag != 'DATA' or e.path[0] not in 'edx':
                         return violation(f'{what}: unexpected entry '
                                          f'{e.tag} {e.path}',
                                          sig='foreign-entry')
                     got.append(int(e.path[1:]))
+                    if e.path[0] == 'x':
+                        return violation(
+                            f'{what}: the doubly dash-escaped line '
+                            f'{lines[int(e.path[1:])]!r} (cleartext "- DATA '
+                            f'...", not an entry) was read as an entry',
+                            sig='double-dash-unescaped')
                 signed_shape = 'S' in seq
                 if signed_shape:
                     fm = re.match(r'^B*S[^B]*B(?P<body>[^G]*)G', seq)
@@ -266,6 +275,9 @@ ENTRY_LINES = ['DATA a 0 MD5 d41d8cd98f00b204e9800998ecf8427e',
                'DIST foo.tar 7 SHA512 ab', 'TIMESTAMP 2020-01-01T00:00:00Z',
                'MISC m 3 MD5 11', 'DATA -dash 0', 'DATA trail 1   ',
                'EBUILD x-1.ebuild 5 MD5 22']
+# cleartext lines that are not Manifest entries (gpg dash-escapes some)
+JUNK_LINES = ['- DATA dashed 0', '-----BEGIN PGP SIGNED MESSAGE-----',
+              'junk line', '- - DATA twice 0', 'From here']
 INJECT = ['', ' ', 'DATA injected 0', '- DATA injected2 0', 'Hash: SHA512',
           'Comment: x', S, G, N, '- ' + S, 'garbage', '\t',
           'IGNORE injected3']
@@ -275,6 +287,9 @@ INJECT = ['', ' ', 'DATA injected 0', '- DATA injected2 0', 'Hash: SHA512',
 def gpg_case(draw):
     lines = draw(st.lists(st.sampled_from(ENTRY_LINES + ['', '']),
                           min_size=0, max_size=6))
+    if draw(st.integers(0, 3)) == 0:
+        lines.insert(draw(st.integers(0, len(lines))),
+                     draw(st.sampled_from(JUNK_LINES)))
     muts = []
     for _ in range(draw(st.integers(0, 3))):
         muts.append({
@@ -391,8 +406,9 @@ def run_gpg(desc):
                 f'loading mutated signed Manifest {mutated!r} raised\n'
                 + buckets.describe(e), sig='exc:' + buckets.signature(e),
                 classes=classes)
+        valid_body = all(ln in ENTRY_LINES or ln == '' for ln in desc['lines'])
         if not loaded:
-            if mutated == signed:
+            if mutated == signed and valid_body:
                 return violation(
                     f'genuinely signed Manifest is rejected: {signed!r}',
                     sig='original-rejected', classes=classes)
